@@ -9,7 +9,7 @@
    is NOT formalised: see C08_orbit_stationary_bounded for what is machine-checked of it. *)
 From CV Require Import Base.Tac Base.Ext Base.LinAlg Base.QcLin Model.C08_NUTS.
 From CV Require Import Proofs.C08_Prog Proofs.C08_Leap Proofs.C08_Tree Proofs.C08_Top Proofs.C08_Law Proofs.C08_Orbit
-                       Proofs.C08_Stationary Proofs.C08_Block Proofs.C08_Alive Proofs.C08_Sim Proofs.C08_LeapD.
+                       Proofs.C08_Stationary Proofs.C08_Block Proofs.C08_Alive Proofs.C08_Sim Proofs.C08_LeapD Proofs.C08_Offset.
 From Coq Require Import QArith Qcanon Qminmax Ring.
 Local Open Scope Q_scope.
 
@@ -316,6 +316,26 @@ Proof.
   exact (concrete_orbit_exact t d guard md heps x z e f (wf_target_dim t d Hw) Hx Hz).
 Qed.
 Print Assumptions C08_concrete_is_orbit.
+
+(* ---- an additive constant of the log-density changes nothing --------------------------------------------- *)
+(* Shift the Hamiltonian, the log-density and the slice variable (= H0 - Exp(1)) by the same finite constant c: the whole
+   transition is the same probabilistic program -- same scripted runs for every stream of uniforms, same law -- for every
+   state space, depth, guard.  (Any comparison in the code that is not exact, e.g. a relative tolerance in the slice
+   test, breaks this; the cells l4:offset check it on both implementations.) *)
+Theorem C08_offset_invariant :
+  forall (S : Type) (leap : bool -> S -> S) (ham lgd : S -> ext) (uturn : S -> S -> bool) (alpha : S -> Q) (logu : ext) (c : Q)
+         (guard : bool) (max_depth : nat) (s0 : S),
+  let sh := fun a : ext => ext_add a (Fin c) in
+  (forall us log, run (transition S leap (fun s => sh (ham s)) (fun s => sh (lgd s)) uturn alpha (sh logu) guard max_depth s0) us log
+                  = run (transition S leap ham lgd uturn alpha logu guard max_depth s0) us log) /\
+  (forall f, dist (transition S leap (fun s => sh (ham s)) (fun s => sh (lgd s)) uturn alpha (sh logu) guard max_depth s0) f
+             == dist (transition S leap ham lgd uturn alpha logu guard max_depth s0) f).
+Proof.
+  intros S leap ham lgd uturn alpha logu c guard md s0 sh. split.
+  - intros us log. apply peq_run. exact (transition_offset S leap ham lgd uturn alpha logu c guard md s0).
+  - intros f. exact (transition_offset_dist S leap ham lgd uturn alpha logu c guard md s0 f).
+Qed.
+Print Assumptions C08_offset_invariant.
 
 (* ---- invariance on one orbit, bounded (tier 2) -------------------------------------------------------- *)
 (* The counting measure on the in-slice positions of an orbit is invariant under the COMPLETE transition (stopping
